@@ -9,7 +9,7 @@ PID = 'C14'
 LEVEL = 'model_checking'
 ENGINE = 'E1+E2'
 TECHNIQUE = 'bounded exhaustive enumeration of all ordered BC-point lists (1..3 points over a 3x4 alphabet) against a hand-written clamped linear interpolation, plus all build histories up to depth 3/4 over shared inputs with a snapshot invariant on every transition'
-RULE = ('law cells = every ordered list of 1..3 points with distinct Mach over BC {.2,.25,.3} x Mach {.5,1,2,3} (768 lists) x input form '
+RULE = ('law cells = every ordered list of 1..3 points with distinct Mach over BC {.2,.25,.3} x Mach {.5,1,2,3} (768 lists) plus 6 lists with points beyond the end of the table (Mach 6..9) x input form '
         '(Mach, or velocity in FPS/MPS/KMH) x table x with/without weight+diameter; dense cells = 2-4 BC points inside ONE table interval (4 intervals per table) with/without points below and above, 3 orders; history cells = every sequence of <= 3 (thorough 4) '
         'operations over {plain model from dicts, multi from dicts, multi from the plain model\'s data points, multi from the last '
         'multi model\'s data points, repeat last multi build}; after every operation every input table, every live model and every '
@@ -23,6 +23,7 @@ BCS = (0.2, 0.25, 0.3)
 MACHS = (0.5, 1.0, 2.0, 3.0)
 SPEED_OF_SOUND_MPS = 340.294   # ISA sea level (independent of the library constant 340.29)
 TABLES = ['G7', 'G1', 'G2', 'G5', 'G6', 'G8', 'GI', 'GS', 'RA4']
+OUTSIDE = [[[0.3, 4.0], [0.5, 6.0]], [[0.5, 6.0], [0.3, 3.0]], [[0.2, 0.5], [0.3, 7.0]], [[0.25, 6.0]], [[0.3, 6.0], [0.2, 8.0]], [[0.2, 2.0], [0.3, 4.5], [0.4, 9.0]]]
 
 
 def interp(x, xp, yp):
@@ -259,6 +260,11 @@ def plan(tier):
         for t in TABLES[2:]:
             for pl in pls[::16]:
                 law_cells.append([t, pl, 'Mach', True])
+    # points faster than the table's last entry (Mach 5 for most tables, 4 for GS / RA4) still shape the interpolation below them
+    for t in TABLES:
+        for pl in OUTSIDE:
+            for form in ('Mach', 'FPS'):
+                law_cells.append([t, pl, form, False])
     depth = 3 if tier == 'quick' else 4
     hist = []
     for pl in ([[0.2, 1.0], [0.3, 2.0]], [[0.25, 2.0]], [[0.3, 3.0], [0.2, 0.5], [0.25, 1.0]]):
